@@ -65,7 +65,17 @@ def gen_cases(rng, tier):
             elif r == 1: del s[j]
             else: s.insert(j, rng.choice(BOUNDARY))
         rows.append([0] + s)
-    cases = pack(1, rows)
+    # LONG strings: a multi-byte character straddling every position around the block sizes an implementation might validate by (powers of two from
+    # 16 to 16 KiB, 4096 in particular) is part of a valid string; a sequence cut AT such a boundary is not
+    long_rows = []
+    for blk in (16, 32, 64, 256, 1024, 4096, 8192, 16384):
+        for ch in ([0xC3, 0xA9], [0xE2, 0x82, 0xAC], [0xF0, 0x9F, 0x98, 0x80]):
+            for off in range(1, len(ch)):
+                pad = blk - off
+                long_rows.append([0] + [0x61] * pad + ch + [0x62] * 3)                 # valid: the character starts `off` bytes before the boundary
+                long_rows.append([0] + [0x61] * pad + ch[:off])                         # invalid: the string ends inside the character, at the boundary
+            long_rows.append([0] + [0x61] * (2 * blk - 1) + ch + [0x63])             # valid, second boundary
+    cases = pack(1, rows) + pack(1, long_rows, per=2)
     enum_rows = []
     for v in (0, 1, -1, 2 ** 31, -2 ** 31, 10 ** 12):
         enum_rows += [[1, 0, v], [1, 1, v], [2, 0, v], [2, 1, v], [3, v], [3, v, v + 1], [3, v, v + 1, v + 2], [3, v, v + 1, v + 2, v + 3]]
